@@ -27,7 +27,8 @@ poll either arm may run.  The model makes that an explicit choice bit of the `po
 code by re-running the case until the real `select!` takes that arm.
 
 Ghost fields (never read by the algorithm, used by the theorems and the oracle):
-`Task.outcome`, `Task.abortFirst`, `State.initVal`, `State.lastInput`, `State.log`.
+`Task.outcome`, `Task.abortFirst`, `State.initVal`, `State.lastInput`, `State.log`;
+multi-action: `M.Task.input`, `M.Task.canceledEarly`, `M.State.nsync`.
 -/
 namespace Leptos.Action
 
